@@ -515,13 +515,109 @@ func queuePrograms(thorough bool) []vsched.Program {
 			return vsched.Verdict{Obs: "res=" + res}
 		}
 	}})
+	// Q6: bursts. The backing array of a queue grows and is reused; delivery
+	// must stay exactly-once and FIFO whatever its capacity history (one
+	// thread: fill K, drain K; fill, partly drain, refill, drain).
+	bursts := [][]int{{40, -40}, {70, -55, 40, -55}}
+	if thorough {
+		bursts = append(bursts, []int{33, -33}, []int{130, -130}, []int{65, -49, 1, -17}, []int{40, -30, 40, -50})
+	}
+	for _, b := range bursts {
+		b := b
+		ps = append(ps, vsched.Program{Name: fmt.Sprintf("Q6/burst%v", b), MaxSteps: 4000, Body: func() func(vsched.Outcome) vsched.Verdict {
+			q := newQueue[int]()
+			done := false
+			next, want, bad := 1, 1, ""
+			vsched.GoNamed("burst", func() {
+				for _, n := range b {
+					for i := 0; i < n; i++ {
+						if !q.put(next) {
+							bad = fmt.Sprintf("put(%d) refused on an open queue", next)
+							return
+						}
+						next++
+					}
+					for i := 0; i < -n; i++ {
+						v, err := q.get(bg())
+						if err != nil || v != want {
+							if bad == "" {
+								bad = fmt.Sprintf("get number %d returned (%d, %v), want item %d", want, v, err, want)
+							}
+							return
+						}
+						want++
+					}
+				}
+				done = true
+			})
+			return func(o vsched.Outcome) vsched.Verdict {
+				if o.Panic != "" {
+					return vsched.Verdict{Sig: "C29/queue/panic", What: o.Panic, Obs: "panic"}
+				}
+				if bad != "" {
+					return vsched.Verdict{Sig: "C29/queue/burst/not-exactly-once-in-fifo-order", What: fmt.Sprintf("burst pattern %v (positive: puts, negative: gets): %s", b, bad), Obs: "fail"}
+				}
+				if o.Deadlock || !done {
+					return vsched.Verdict{Sig: "C29/queue/burst/get-blocked-with-items-queued", What: fmt.Sprintf("burst pattern %v: blocked %v after %d puts and %d gets", b, o.Blocked, next-1, want-1), Obs: "deadlock"}
+				}
+				return vsched.Verdict{Obs: fmt.Sprintf("burst-ok:%d", next-1)}
+			}
+		}})
+	}
+	// Q7: the same with the consumer on its own thread (quick: a burst that
+	// crosses the first growth steps; thorough: beyond 64).
+	conc := []int{12}
+	if thorough {
+		conc = append(conc, 40)
+	}
+	for _, k := range conc {
+		k := k
+		ps = append(ps, vsched.Program{Name: fmt.Sprintf("Q7/producer-consumer-%d", k), MaxSteps: 6000, Body: func() func(vsched.Outcome) vsched.Verdict {
+			q := newQueue[int]()
+			done := 0
+			bad := ""
+			vsched.GoNamed("producer", func() {
+				for i := 1; i <= k; i++ {
+					if !q.put(i) {
+						bad = fmt.Sprintf("put(%d) refused on an open queue", i)
+						return
+					}
+				}
+				done++
+			})
+			vsched.GoNamed("consumer", func() {
+				for i := 1; i <= k; i++ {
+					v, err := q.get(bg())
+					if err != nil || v != i {
+						if bad == "" {
+							bad = fmt.Sprintf("get number %d returned (%d, %v)", i, v, err)
+						}
+						return
+					}
+				}
+				done++
+			})
+			return func(o vsched.Outcome) vsched.Verdict {
+				if o.Panic != "" {
+					return vsched.Verdict{Sig: "C29/queue/panic", What: o.Panic, Obs: "panic"}
+				}
+				if bad != "" {
+					return vsched.Verdict{Sig: "C29/queue/burst/not-exactly-once-in-fifo-order", What: bad, Obs: "fail"}
+				}
+				if o.Deadlock || done != 2 {
+					return vsched.Verdict{Sig: "C29/queue/lost-wakeup/getter-blocked", What: fmt.Sprintf("producer/consumer of %d items: blocked %v", k, o.Blocked), Obs: "deadlock"}
+				}
+				return vsched.Verdict{Obs: "stream-ok"}
+			}
+		}})
+	}
 	return ps
 }
 
 func TestVerif_C29(t *testing.T) {
 	vx.Run(t, "C29", func(c *vx.Ctx) {
 		bounds := vx.Pick(c, []int{2}, []int{3, -1})
-		c.Rule("every schedule with at most B preemptions (quick B=2; thorough: B=3, then unbounded, the largest completed bound per program is recorded) of each small thread program over the instrumented quic gate, quic queue and internal/gate.Gate; a scheduling point precedes every channel operation/select/context operation, a select with several ready arms is an explicit choice; evaluations = complete executions; distinct outcomes = distinct terminal observations per program")
+		c.Rule("every schedule with at most B preemptions (quick B=2; thorough: B=3, then unbounded, the largest completed bound per program is recorded) of each small thread program over the instrumented quic gate, quic queue and internal/gate.Gate (plus single-thread and producer/consumer bursts of up to 130 items, so that every growth step of the queue's backing array up to capacity 256 is crossed); a scheduling point precedes every channel operation/select/context operation, a select with several ready arms is an explicit choice; evaluations = complete executions; distinct outcomes = distinct terminal observations per program")
 		c.Assume("interleavings are at synchronisation-operation granularity; plain memory accesses between two operations are atomic (unsynchronised accesses are looked for separately: in the thorough tier the same thread programs run free-running on real goroutines/channels in a -race build, and a data race whose two accesses are both in the instrumented source is reported; that pass samples schedules)")
 		c.Assume("send on unbuffered channels is not modelled (the instrumented files never do it)")
 		progs := append(gatePrograms(!c.Quick()), queuePrograms(!c.Quick())...)
